@@ -2,7 +2,7 @@
    order-independence of the tree commit).  The execution-path part (propose / validate / commit-cached / commit-replay /
    restart produce the identical header) is a multi-path differential on the real node (harness c03), see DESIGN.md. *)
 From Coq Require Import NArith List Bool Permutation.
-From V Require Import Trie TrieProofs.
+From V Require Import Trie TrieProofs CommitCache CommitCacheProofs.
 Import ListNotations.
 
 (* Go map iteration order of the pending-operation map is an arbitrary permutation of the batch: irrelevant. *)
@@ -27,3 +27,20 @@ Proof. exact ops_commute. Qed.
 Theorem C03_speculative_root_pure : forall (t : tree) (os discarded : list op),
   let _speculative := commit t discarded in commit t os = commit t os.
 Proof. intros. reflexivity. Qed.
+
+(* The commit paths: a replica commits a peer block either by applying it or - when it has validated exactly that block in the
+   current round - by committing the state the validation left behind.  For EVERY history of validations, proposals the replica
+   builds itself, round changes, round interrupts and peer blocks (the state machine and its blocks abstract: any [apply]), every
+   commit is the application of the committed block to the previously committed state.  Holds because a new round drops the
+   cached result (bft.NewRound; before the repair recorded in KNOWN_FINDINGS.txt it did not: C03_old_commits_without_applying). *)
+Theorem C03_commit_is_apply : forall (S B : Type) (apply : S -> B -> S) (beq : B -> B -> bool),
+  (forall a b, beq a b = true <-> a = b) ->
+  forall ops s, crun apply beq true (mkRep s s None false) ops.
+Proof. exact commit_is_apply_from_start. Qed.
+Print Assumptions C03_commit_is_apply.
+Example C03_old_commits_without_applying :
+  committed (fold_left (cstep app_l Nat.eqb false) stale_history (mkRep [1] [1] None false)) = [1].
+Proof. exact old_commits_without_applying. Qed.
+Example C03_new_commits_the_block :
+  committed (fold_left (cstep app_l Nat.eqb true) stale_history (mkRep [1] [1] None false)) = [1; 7].
+Proof. exact new_commits_the_block. Qed.
